@@ -9,6 +9,7 @@ import (
 
 	"csverify/checks"
 	"csverify/core"
+	"csverify/e3"
 )
 
 func usage() {
@@ -59,6 +60,14 @@ func main() {
 			*tier = "quick"
 		}
 		os.Exit(runCheck(id, *tier))
+	case "expand":
+		// triage helper: expand the corpus and keep the scratch module (caller removes it)
+		ex, err := e3.Expand([]e3.Combo{{Runtime: "google"}, {Runtime: "gogo"}}, false)
+		if err != nil {
+			fmt.Fprintln(os.Stderr, err)
+			os.Exit(2)
+		}
+		fmt.Println(ex.Scratch)
 	case "explain":
 		if len(os.Args) < 3 {
 			usage()
